@@ -110,9 +110,12 @@ func (tree *MutableTree) AvailableVersions() []int {
 	if err != nil {
 		return nil
 	}
-	_, latestVersion, err := tree.ndb.getLatestVersion()
+	found, latestVersion, err := tree.ndb.getLatestVersion()
 	if err != nil {
 		return nil
+	}
+	if !found {
+		return []int{}
 	}
 	legacyLatestVersion, err := tree.ndb.getLegacyLatestVersion()
 	if err != nil {
